@@ -1,6 +1,7 @@
 CONSTANTS
   Owners = {"o1","o2"}
   Data <- MCData
+  Presets <- MCPresets
   ValidSchemes = {"sha256","x509","sha1"}
   Decodable = {"sha256","x509"}
   Depth = 2
